@@ -473,8 +473,11 @@ impl FrameDecoder {
                         state.bytes_read_counter += 4;
                         let chksum = u32::from_le_bytes(chksum);
                         state.check_sum = Some(chksum);
+                        return Ok((4, 0));
                     }
-                    return Ok((4, 0));
+                    // The checksum has not arrived completely yet: consume nothing, only drain.
+                    let result_len = self.read(target).map_err(err::FailedToDrainDecodebuffer)?;
+                    return Ok((0, result_len));
                 }
 
                 loop {
